@@ -54,6 +54,7 @@ def cases(draw, nums, invalid_kinds=(None,), pmax=4, kmax=4):
     c = draw(gen.curves(0, pmax, kmax, nums=nums, regimes="all"))
     invalid = draw(st.sampled_from(list(invalid_kinds)))
     nodes = draw(node_multiset(c["U"], c["p"], invalid))
+    nodes = lib.reorder(nodes, draw(st.sampled_from(lib.SEQ_ORDERS)))  # requests need not list their nodes increasingly
     return {"curve": c, "nodes": nodes, "invalid": invalid, "twin_first": draw(st.integers(0, 2)) == 0,
             "container": draw(st.sampled_from(["list", "tuple", "ndarray", "gen", "iter", "map", "objarray"]))}
 
